@@ -1,0 +1,71 @@
+//go:build verif
+
+// Round-trip lemmas (C14) for the proposal messages, written as functions; see channel/zz_verif_roundtrip.go. Never called;
+// compiled only with the build tag "verif".
+
+package client
+
+import "io"
+
+// verifLink marks the point where the lemma's hypothesis starts to hold; it does nothing.
+func verifLink(w io.Writer, r io.Reader) {}
+
+func verifRoundTripBaseChannelProposal(w0 io.Writer, r0 io.Reader, x BaseChannelProposal) (y BaseChannelProposal, encErr, decErr error) {
+	encErr = x.Encode(w0)
+	if encErr != nil {
+		return y, encErr, nil
+	}
+	verifLink(w0, r0)
+	decErr = y.Decode(r0)
+	return y, nil, decErr
+}
+
+func verifRoundTripLedgerChannelProposalMsg(w0 io.Writer, r0 io.Reader, x LedgerChannelProposalMsg) (y LedgerChannelProposalMsg, encErr, decErr error) {
+	encErr = x.Encode(w0)
+	if encErr != nil {
+		return y, encErr, nil
+	}
+	verifLink(w0, r0)
+	decErr = y.Decode(r0)
+	return y, nil, decErr
+}
+
+func verifRoundTripSubChannelProposalMsg(w0 io.Writer, r0 io.Reader, x SubChannelProposalMsg) (y SubChannelProposalMsg, encErr, decErr error) {
+	encErr = x.Encode(w0)
+	if encErr != nil {
+		return y, encErr, nil
+	}
+	verifLink(w0, r0)
+	decErr = y.Decode(r0)
+	return y, nil, decErr
+}
+
+func verifRoundTripLedgerChannelProposalAccMsg(w0 io.Writer, r0 io.Reader, x LedgerChannelProposalAccMsg) (y LedgerChannelProposalAccMsg, encErr, decErr error) {
+	encErr = x.Encode(w0)
+	if encErr != nil {
+		return y, encErr, nil
+	}
+	verifLink(w0, r0)
+	decErr = y.Decode(r0)
+	return y, nil, decErr
+}
+
+func verifRoundTripSubChannelProposalAccMsg(w0 io.Writer, r0 io.Reader, x SubChannelProposalAccMsg) (y SubChannelProposalAccMsg, encErr, decErr error) {
+	encErr = x.Encode(w0)
+	if encErr != nil {
+		return y, encErr, nil
+	}
+	verifLink(w0, r0)
+	decErr = y.Decode(r0)
+	return y, nil, decErr
+}
+
+func verifRoundTripChannelProposalRejMsg(w0 io.Writer, r0 io.Reader, x ChannelProposalRejMsg) (y ChannelProposalRejMsg, encErr, decErr error) {
+	encErr = x.Encode(w0)
+	if encErr != nil {
+		return y, encErr, nil
+	}
+	verifLink(w0, r0)
+	decErr = y.Decode(r0)
+	return y, nil, decErr
+}
